@@ -203,6 +203,13 @@ def r3(ctx):
                    'after releasing the lock: a worker that has taken the last record\'s token and waits for the lock sees the flag with '
                    'the count still 0 and leaves with that record queued (qb_log_fini returns, the message is never written)')
         ctx.check('R3', 'exit-needs-asked-and-drained', ok, ex, 'the worker exits only when asked to and the record list is empty (or sem_wait failed)', why)
+    # the request is stored under the lock (R4): the thread reads it under the lock as well
+    at3, _IN3 = lockset_of(f)
+    reads = [ev for ev in f.events('LOAD') if estr(ev.e) == 'wthread_should_exit'] + \
+            [ev for ev in f.events() if ev.kind in ('STORE', 'DECL') and estr(unwrap((ev.rhs if ev.kind == 'STORE' else ev.d.get('init')) or {})) == 'wthread_should_exit']
+    if reads:
+        ctx.check('R3', 'exit-request-read-under-lock', all(LOCK in at3.get((ev.blk, ev.idx), ()) for ev in reads), reads[0],
+                  'the exit request is read while holding the lock it is stored under', 'the exit request is read without the lock it is stored under (a data race)')
     dels = [ev for ev in f.calls('qb_list_del')]
     first = False
     for d in dels:
